@@ -29,6 +29,11 @@ from fractions import Fraction
 
 from harness.framework import Stream, HarnessError
 
+
+def _qlen(q):
+    # a Sampler's buffer, whatever container it is (queue.Queue today)
+    return q.qsize() if hasattr(q, "qsize") else len(q)
+
 PROPERTY = "C06"
 RULE = ("sample streams of 1-3 tasks x 1-4 clients (warm-up then normal samples, dyadic / integer / arbitrary double times, clients lagging "
         "behind each other, per-client percent_completed: iteration/time/runner based or None, last sample bumped to 1.0, optional equal-but-distinct "
@@ -1445,10 +1450,10 @@ def run_transport_direct(ctx, case):
         a, rel, period, ops, normal = sample_fields(s)
         if flush:
             a, period, ops, normal = a + 100000, period + 100000, 1, True
-        before = workers[w].sampler.q.qsize()
+        before = _qlen(workers[w].sampler.q)
         sampler_add(workers[w].sampler, task, w, metrics.SampleType.Normal if normal else metrics.SampleType.Warmup, {}, float(a), float(rel), 0.5, 0.25, 0.125,
                     None, ops, "docs", float(period), None)
-        return workers[w].sampler.q.qsize() > before
+        return _qlen(workers[w].sampler.q) > before
 
     def do(step):
         nonlocal sid, counted_ops, uncounted, buf, accepted_ops
@@ -1526,7 +1531,7 @@ def run_transport_direct(ctx, case):
         do(["postprocess"])
 
     drain()
-    left_in_queues = sum(ws.sampler.q.qsize() for ws in workers)
+    left_in_queues = sum(_qlen(ws.sampler.q) for ws in workers)
     sid += 1
     flush_sid = sid
     n0 = len(spy)
